@@ -10,7 +10,7 @@ sys.path.insert(0, os.path.dirname(os.path.dirname(os.path.abspath(__file__))))
 import c01  # noqa: E402
 from common import Ctx  # noqa: E402
 
-LEAN_TARGETS = ["QuriVerif.Props.C06", "QuriVerif.Driver.C06"]
+LEAN_TARGETS = ["QuriVerif.Props.C06", "QuriVerif.Props.C06Lift", "QuriVerif.Driver.C06"]
 from translate import c06gen  # noqa: E402
 
 CLIFF1 = ["X", "Y", "Z", "H", "S", "Sdag", "SqrtX", "SqrtXdag", "SqrtY", "SqrtYdag", "Identity"]
@@ -768,10 +768,12 @@ def run(ctx: Ctx, replay=None) -> int:
     ]
     ctx.assumptions = ["labels are valid (one Pauli per index)", "gate qubits are distinct"]
     gen(ctx)
-    ok = ctx.prove(["QuriVerif.Props.C06", "QuriVerif.Driver.C06"], ["QuriVerif.Props.C06", "QuriVerif.Generated.C06Tables"])
+    ok = ctx.prove(["QuriVerif.Props.C06", "QuriVerif.Props.C06Lift", "QuriVerif.Driver.C06"],
+                   ["QuriVerif.Props.C06", "QuriVerif.Props.C06Lift", "QuriVerif.Generated.C06Tables"])
     if ok:
         names = [f"QV.Props.C06.{n}" for _, n, _ in ctx.count_obligations(["QuriVerif.Props.C06"])]
-        ctx.audit(names + ["QV.C06.spectators_unchanged", "QV.C06.acted_local"], ["QuriVerif.Props.C06"])
+        names += [f"QV.Props.C06Lift.{n}" for _, n, _ in ctx.count_obligations(["QuriVerif.Props.C06Lift"]) if n != "Covered.wf"]
+        ctx.audit(names + ["QV.C06.spectators_unchanged", "QV.C06.acted_local"], ["QuriVerif.Props.C06", "QuriVerif.Props.C06Lift"])
         with ctx.timed("correspond"):
             correspond(ctx)
     with ctx.timed("oracle_validation"):
